@@ -170,11 +170,14 @@ class Proxy(Part):
         long = st.one_of(st.none(), st.none(), st.none(), st.builds(lambda i, n, sp, cut, fl: {"line": i, "len": n, "style": sp, "cut": cut, "flush": fl}, st.integers(0, 5), long_len, st.one_of(st.none(), st.sampled_from(GS.PALETTE)),
                                                                     st.one_of(st.none(), st.floats(0, 1), st.floats(0.9, 1)), st.booleans()))
         return st.builds(
-            lambda lines, last_nl, cuts, flushes, route, lg, wf, how: {"lines": lines, "final_newline": last_nl, "cuts": cuts, "flushes": flushes, "route": route, "long": lg, "write_fault": wf, "how": how},
+            lambda lines, last_nl, cuts, flushes, route, lg, wf, how, tb: {"lines": lines, "final_newline": last_nl, "cuts": cuts, "flushes": flushes, "route": route, "long": lg if not tb else None, "write_fault": wf, "how": how, "tabbed": tb},
             st.lists(line, min_size=1, max_size=6), st.booleans(),
             st.lists(st.integers(0, 400), max_size=10), st.lists(st.integers(0, 400), max_size=4), st.sampled_from(["proxy", "proxy", "live", "live-stderr"]), long, st.one_of(st.none(), st.none(), st.integers(0, 6)),
             # how the stream's methods are called: plainly; every other call from a short-lived second thread (one after the other, never at the same time); writelines() for every other chunk
             st.sampled_from(["plain", "plain", "two-threads", "writelines", "two-threads+writelines"]),
+            # one line of tab-separated fields on a console a little wider than the line is before its tabs are expanded (so it has to be wrapped after expansion)
+            st.one_of(st.none(), st.none(), st.none(), st.builds(lambda i, fields, d: {"line": i, "fields": fields, "d": d}, st.integers(0, 5),
+                                                                  st.lists(st.sampled_from(["id", "name", "status", "elapsed", "ok", "x", "12345", "a-long-field-name"]), min_size=2, max_size=8), st.integers(0, 12))),
         )
 
     def check(self, spec, ctx):
@@ -188,12 +191,17 @@ class Proxy(Part):
         raw = ""
         safe = [0]  # offsets where a flush may fall (between characters, outside escape sequences)
         CW = 200
+        tb = spec.get("tabbed")
+        if tb:
+            CW = max(12, len("\t".join(tb["fields"])) - tb["fields"].count("") + tb["d"] - ("\t".join(tb["fields"])).count("\t"))
         lg = spec.get("long")
         long_cut = None
         for li, line in enumerate(spec["lines"]):
             width = 0
             if lg and li == lg["line"] % len(spec["lines"]):
                 line = [{"t": ("abcdefghij" * (lg["len"] // 10 + 1))[:lg["len"]], "s": lg["style"], "v": 0, "long": True}]
+            if tb and li == tb["line"] % len(spec["lines"]):
+                line = [{"t": "\t".join(tb["fields"]), "s": None, "v": 0}]
             for r in line:
                 if r.get("long"):
                     if lg["cut"] is not None:
@@ -377,6 +385,13 @@ class Proxy(Part):
             ctx.cls("long-line")
             if lg["len"] > 8192:
                 ctx.cls("line-longer-than-8192")
+        if tb:
+            # tabs are expanded and over-long lines wrapped by the console: every character that is not white space must still be there, in order, with its style
+            got = [e for e in got if not e[1].isspace()]
+            want = [e for e in want if not e[1].isspace()]
+            gs = "".join(e[1] for e in got)
+            ws = "".join(e[1] for e in want)
+            ctx.cls("tab-separated-line")
         if gs != ws:
             if spec["route"] == "proxy" or True:
                 sig = "C19/proxy/flush-text" if nonempty_flush and gs.replace("\n", "") != ws.replace("\n", "") else ("C19/proxy/lines" if gs.replace("\n", "") == ws.replace("\n", "") else "C19/proxy/text")
